@@ -516,6 +516,145 @@ func runRouterChurn(run *core.Run, seed int64, npub int) (tv.Trace, string) {
 	return tr, problem
 }
 
+// runRouterWide: several hundred hidden (unlogged, draining) connections subscribed to everything make
+// a publication's fan-out long; a logged publisher publishes, and the moment it has seen the OK a logged
+// subscriber (which already has a registry entry) opens a fresh subscription for the same kind.
+func runRouterWide(run *core.Run, seed int64) (tv.Trace, string) {
+	r := rand.New(rand.NewSource(seed))
+	conc := abs.NewConc()
+	rec := &rrec{}
+	router := mocrelay.NewRouterHandler(4096)
+	var evMu sync.Mutex
+	evs := map[string]abs.Event{}
+	evOf := func(l string) (abs.Event, bool) { evMu.Lock(); defer evMu.Unlock(); e, ok := evs[l]; return e, ok }
+	root, rootCancel := context.WithCancel(context.Background())
+	defer rootCancel()
+	all := conc.Filters([]abs.Filter{{}})
+	var hwg sync.WaitGroup
+	for h := 0; h < 500; h++ {
+		send := make(chan mocrelay.ServerMsg, 1)
+		recv := make(chan mocrelay.ClientMsg)
+		hwg.Add(2)
+		go func() { defer hwg.Done(); router.ServeNostr(root, send, recv) }()
+		go func() {
+			defer hwg.Done()
+			for {
+				select {
+				case <-send:
+				case <-root.Done():
+					return
+				}
+			}
+		}()
+		select {
+		case recv <- &mocrelay.ClientReqMsg{SubscriptionID: "h", ReqFilters: all}:
+		case <-time.After(2 * time.Second):
+		}
+	}
+	var conns []*rconn
+	for i := 1; i <= 2; i++ {
+		ctx, cancel := context.WithCancel(root)
+		c := &rconn{id: i, ctx: ctx, cancel: cancel, send: make(chan mocrelay.ServerMsg), recv: make(chan mocrelay.ClientMsg), done: make(chan error, 1),
+			rec: rec, conc: conc, evOf: evOf, eose: map[string]int{}, oks: map[string]int{}, gotEv: map[string]bool{}}
+		conns = append(conns, c)
+		go func() { c.done <- router.ServeNostr(c.ctx, c.send, c.recv) }()
+		go c.reader()
+	}
+	pub, late := conns[0], conns[1]
+	problem := ""
+	req := func(c *rconn, sub string, fs []abs.Filter) bool {
+		a := rmsg("REQ")
+		a["sub"] = sub
+		a["fs"] = abs.NormFilters(fs)
+		return c.offer(&mocrelay.ClientReqMsg{SubscriptionID: sub, ReqFilters: conc.Filters(fs)}, a) &&
+			c.wait(func() bool { return c.eose[sub] >= 1 }, 3*time.Second)
+	}
+	kind1 := []abs.Filter{{Kinds: abs.IntSet{P: true, S: []int64{1}}}}
+	if !req(late, "s0", []abs.Filter{{Kinds: abs.IntSet{P: true, S: []int64{7}}}}) {
+		problem = "connection 2: REQ s0 not answered by EOSE within 3s"
+	}
+	for k := 1; k <= 8 && problem == ""; k++ {
+		e := abs.Event{ID: fmt.Sprintf("w%d", k), Author: "a", Kind: 1, TS: int64(1 + r.Intn(5))}
+		evMu.Lock()
+		evs[e.ID] = e
+		evMu.Unlock()
+		a := rmsg("EVENT")
+		a["id"] = e.ID
+		a["ev"] = e
+		if !pub.offer(&mocrelay.ClientEventMsg{Event: conc.Event(e, "live")}, a) {
+			problem = "publisher: EVENT not taken"
+			break
+		}
+		// spin (no sleep) until the OK has been seen, then open the new subscription at once
+		for dl := time.Now().Add(2 * time.Second); ; {
+			pub.mu.Lock()
+			ok := pub.oks[e.ID] >= 1
+			pub.mu.Unlock()
+			if ok {
+				break
+			}
+			if time.Now().After(dl) {
+				problem = fmt.Sprintf("publisher 1: EVENT %s not acknowledged within 2s (wide scenario)", e.ID)
+				break
+			}
+		}
+		if problem == "" && !req(late, fmt.Sprintf("n%d", k), kind1) {
+			problem = fmt.Sprintf("connection 2: REQ n%d not answered by EOSE within 3s", k)
+		}
+	}
+	tr := tv.Trace{Name: fmt.Sprintf("router-wide-seed%d", seed)}
+	tr.Lines = append(tr.Lines, map[string]any{"op": "reset"})
+	complete := problem == ""
+	if complete {
+		fs := []abs.Filter{{Kinds: abs.IntSet{P: true, S: []int64{9}}}}
+		for _, c := range conns {
+			if !req(c, "zz", fs) {
+				complete = false
+				problem = fmt.Sprintf("connection %d: sentinel REQ not answered", c.id)
+			}
+		}
+		for _, id := range []string{"z1", "z2"} {
+			if !complete {
+				break
+			}
+			mk := abs.Event{ID: id, Author: "z", Kind: 9, TS: 9}
+			evMu.Lock()
+			evs[id] = mk
+			evMu.Unlock()
+			a := rmsg("EVENT")
+			a["id"] = id
+			a["ev"] = mk
+			if !pub.offer(&mocrelay.ClientEventMsg{Event: conc.Event(mk, "drain")}, a) ||
+				!pub.wait(func() bool { return pub.oks[id] >= 1 }, 3*time.Second) {
+				complete = false
+				problem = "publisher 1: drain marker not acknowledged"
+			}
+		}
+		for _, c := range conns {
+			if complete && !c.wait(func() bool { return c.gotEv["zz|z2"] }, 3*time.Second) {
+				complete = false
+				problem = fmt.Sprintf("connection %d did not receive the drain marker", c.id)
+			}
+		}
+	}
+	rootCancel()
+	for _, c := range conns {
+		select {
+		case <-c.done:
+		case <-time.After(3 * time.Second):
+			problem = fmt.Sprintf("connection %d: ServeNostr did not return after cancel", c.id)
+		}
+	}
+	hwg.Wait()
+	rec.mu.Lock()
+	tr.Lines = append(tr.Lines, rec.lines...)
+	rec.mu.Unlock()
+	if complete {
+		tr.Lines = append(tr.Lines, map[string]any{"op": "quiesce", "shape": "quiesce: a must-deliver event / EOSE / OK is missing"})
+	}
+	return tr, problem
+}
+
 // C07: router.
 func C07(run *core.Run) {
 	// the mechanism model RouterMC composed with the RouterObs monitor, explored by TLC simulation
@@ -583,6 +722,22 @@ func C07(run *core.Run) {
 		distinct.Add(tr.Name)
 		run.Add("observations", int64(len(tr.Lines)))
 		run.Add("churn_scenarios", 1)
+	}
+	// a wide fan-out: the accepting OK means the event has been handed to every subscription that was
+	// registered; a subscription opened after the publisher saw the OK gets nothing of it
+	nwide := 2
+	if run.Thorough() {
+		nwide = 20
+	}
+	for i := 0; i < nwide && run.Violations() < 3; i++ {
+		tr, problem := runRouterWide(run, run.Seed*7000+int64(i))
+		if problem != "" {
+			run.Violate("progress:"+stripDigits(problem), problem+" ("+tr.Name+")", map[string]any{"trace": tr.Lines})
+		}
+		traces = append(traces, tr)
+		distinct.Add(tr.Name)
+		run.Add("observations", int64(len(tr.Lines)))
+		run.Add("wide_scenarios", 1)
 	}
 	out, err := tv.ValidateChunks(routerTraceSpec, nil, traces, 6, 40, 8)
 	if out != nil {
